@@ -1,6 +1,8 @@
 """C05 one-step cases: generator, runners (implementation harness impl_haiss, extracted model
 model_haiss), independent reference for the wake potential, comparators and the force-law
-oracle.  Single bunch (multi-bunch layout is C08)."""
+oracle.  nb = 1..3 bunches with unequal filling, in buckets with gaps, as main() sets a filling
+pattern up (bucket numbers in decreasing order, spacing_bins > 0, transform length >=
+max(bucket)*spacing + n)."""
 import cmath, math, os
 from fractions import Fraction
 from vp_common import *
@@ -30,15 +32,17 @@ class StepCase:
 
     def impl_text(self, order, ib=None):
         ib = self.Ib if ib is None else ib
-        return "step %s %d %d %d %s %s %s %s %s %s %s %s %s %s %s %s %d %s %s %s\n" % (
-            self.cid, self.n, self.it, self.nmax, " ".join(order), self.ztoks(),
+        return "step %s %d %d %d %d %d %s %s %s %s %s %s %s %s %s %s %s %s %s %s %d %s %s %s\n" % (
+            self.cid, self.n, self.nb, self.it, self.nmax, self.spacing, " ".join(str(b) for b in self.buckets),
+            " ".join(fhex(f32(v)) for v in self.filling), " ".join(order), self.ztoks(),
             fhex(ib), fhex(self.E0), fhex(self.sE), fhex(self.dt), fhex(self.f_rev), fhex(self.f_RF),
             fhex(self.bl), fhex(self.pqsize), fhex(self.angle), fhex(self.e1), self.deriv,
             fhex(getattr(self, "shx", 0.0)), fhex(getattr(self, "shy", 0.0)),
             " ".join(fhex(v) for v in self.data))
 
     def replay(self):
-        d = dict(kind="step", id=self.cid, n=self.n, it=self.it, nmax=self.nmax, ztype=self.z["type"],
+        d = dict(kind="step", id=self.cid, n=self.n, nb=self.nb, buckets=list(self.buckets), spacing=self.spacing,
+                 filling=list(self.filling), it=self.it, nmax=self.nmax, ztype=self.z["type"],
                  z={k: (v if k != "table" else [[fhex(a), fhex(b)] for a, b in v]) for k, v in self.z.items()},
                  Ib=fhex(self.Ib), E0=fhex(self.E0), sE=fhex(self.sE), dt=fhex(self.dt), f_rev=fhex(self.f_rev),
                  f_RF=fhex(self.f_RF), bl=fhex(self.bl), pqsize=fhex(self.pqsize), angle=fhex(self.angle),
@@ -48,7 +52,8 @@ class StepCase:
         return d
 
     def describe(self):
-        return dict(id=self.cid, n=self.n, it=self.it, nmax=self.nmax, ztype=self.z["type"], steps=self.steps,
+        return dict(id=self.cid, n=self.n, nb=self.nb, buckets=list(self.buckets), spacing=self.spacing,
+                    filling=[round(v, 3) for v in self.filling], it=self.it, nmax=self.nmax, ztype=self.z["type"], steps=self.steps,
                     target_distortion=round(self.target_F, 3), Ib=self.Ib)
 
 
@@ -57,17 +62,66 @@ def case_from_replay(rp):
     if "table" in z:
         z["table"] = [(float.fromhex(a), float.fromhex(b)) for a, b in z["table"]]
     fl = lambda k: float.fromhex(rp[k])
-    return StepCase(rp["id"], n=rp["n"], it=rp["it"], nmax=rp["nmax"], z=z, Ib=fl("Ib"), E0=fl("E0"), sE=fl("sE"),
+    nb = rp.get("nb", 1)
+    return StepCase(rp["id"], n=rp["n"], nb=nb, buckets=list(rp.get("buckets", [0])), spacing=rp.get("spacing", 0),
+                    filling=list(rp.get("filling", [1.0])), it=rp["it"], nmax=rp["nmax"], z=z, Ib=fl("Ib"), E0=fl("E0"), sE=fl("sE"),
                     dt=fl("dt"), f_rev=fl("f_rev"), f_RF=fl("f_RF"), bl=fl("bl"), pqsize=fl("pqsize"),
                     angle=fl("angle"), steps=rp["steps"], e1=fl("e1"), deriv=rp["deriv"], target_F=rp["target_F"],
                     shx=float(rp.get("shift_x_cells", 0.0)), shy=float(rp.get("shift_y_cells", 0.0)),
                     data=[float.fromhex(v) for v in rp["data"]])
 
 
-def gen_case(rng, cid, ztype):
-    n = rng.randint(12, 24)
+def blob(rng, n, dq, mx, my, weight, cx=None, sx=None):
+    """one bunch: a smooth blob well inside the grid, zero outside a box; integral [weight] (filling share)"""
+    cx = (n - 1) / 2 + rng.uniform(-1.5, 1.5) if cx is None else cx
+    cy = (n - 1) / 2 + rng.uniform(-1.0, 1.0)
+    sx = rng.uniform(0.7, 1.3) / dq if sx is None else sx
+    sy = rng.uniform(0.6, 1.1) / dq
+    skew = rng.uniform(-0.3, 0.3)
+    data = [0.0] * (n * n)
+    tot = 0.0
+    for x in range(mx, n - mx):
+        for y in range(my, n - my):
+            u, v = (x - cx) / sx, (y - cy) / sy
+            val = math.exp(-0.5 * (u * u + v * v) + skew * u * v) * (1 + 0.3 * rng.uniform(-1, 1))
+            data[x * n + y] = val
+            tot += val
+    return [f32(weight * v / (tot * dq * dq)) for v in data]
+
+
+def gen_layout(rng, n, multi):
+    """(nb, buckets, spacing_bins, filling, nmax) as main() derives them from a filling pattern: bucket numbers
+    decreasing (bucketnumbers.push_back(filling.size()-1-i)), gaps allowed, spacing_bins >= n, the transform long enough
+    for the last bucket's block (main.cpp: max(ceil(n*nbuckets*spacing_ps), (nbuckets-1)*spacing_bins + n), optionally
+    rounded up to a power of two)"""
+    if not multi:
+        return 1, [0], rng.choice([0, n, n + 3]), [1.0], rng.choice([32, 64, 128, 48])
+    nb = rng.choice([2, 2, 3])
+    nbuckets = nb + rng.choice([0, 0, 1, 2])           # empty buckets in between
+    occ = sorted(rng.sample(range(nbuckets), nb), reverse=True)
+    if nbuckets - 1 not in occ and rng.random() < 0.5:
+        occ[0] = nbuckets - 1
+    spacing = n + rng.randint(0, n)
+    need = max(occ) * spacing + n
+    c = rng.random()
+    if c < 0.4:
+        nmax = 1
+        while nmax < need:
+            nmax *= 2
+    elif c < 0.7:
+        nmax = need + rng.randint(0, 9)                 # any length, odd ones included (no Nyquist bin)
+    else:
+        nmax = max(need, nbuckets * spacing + rng.randint(0, n))
+    # unequal filling, e.g. {0.6, 0.4}: shares differ by at least 25 %
+    w = sorted([rng.uniform(0.5, 1.0) * (0.55 ** k) for k in range(nb)], reverse=rng.random() < 0.5)
+    tot = sum(w)
+    return nb, occ, spacing, [v / tot for v in w], nmax
+
+
+def gen_case(rng, cid, ztype, multi=False):
+    n = rng.randint(12, 24) if not multi else rng.randint(12, 18)
     it = rng.choice([2, 3, 4, 4])
-    nmax = rng.choice([32, 64, 128, 48])
+    nb, buckets, spacing, filling, nmax = gen_layout(rng, n, multi)
     steps = int(round(math.exp(rng.uniform(math.log(30), math.log(2000)))))
     angle = f32(2 * math.pi / steps)
     E0 = 1.3e9 * rng.uniform(0.5, 2)
@@ -96,21 +150,18 @@ def gen_case(rng, cid, ztype):
                 v = R / complex(1, Q * (k / kr - kr / k)) + complex(rng.uniform(0, 20), rng.uniform(-20, 20))
             tab.append((f32(v.real), f32(v.imag)))
         z = dict(type="tab", table=tab)
-    # charge density: a blob well inside the grid, zero outside a box
+    # charge density per bunch: a blob well inside the grid, zero outside a box; bunch b holds its filling share.
+    # Multi-bunch: clearly different profiles (centre, width, share) so that the wakes of the bunches differ.
     dq = pqsize / (n - 1)
     mx, my = 2, (3 if n < 16 else 4)
-    cx, cy = (n - 1) / 2 + rng.uniform(-1.5, 1.5), (n - 1) / 2 + rng.uniform(-1.0, 1.0)
-    sx, sy = rng.uniform(0.7, 1.3) / dq, rng.uniform(0.6, 1.1) / dq
-    skew = rng.uniform(-0.3, 0.3)
-    data = [0.0] * (n * n)
-    tot = 0.0
-    for x in range(mx, n - mx):
-        for y in range(my, n - my):
-            u, v = (x - cx) / sx, (y - cy) / sy
-            val = math.exp(-0.5 * (u * u + v * v) + skew * u * v) * (1 + 0.3 * rng.uniform(-1, 1))
-            data[x * n + y] = val
-            tot += val
-    data = [f32(v / (tot * dq * dq)) for v in data]
+    data = []
+    for b in range(nb):
+        if nb == 1:
+            data += blob(rng, n, dq, mx, my, 1.0)
+        else:
+            cx = (n - 1) / 2 + (-1.5, 1.2, 0.0)[b % 3] + rng.uniform(-0.3, 0.3)
+            sx = (0.7, 1.25, 1.0)[b % 3] * rng.uniform(0.9, 1.1) / dq
+            data += blob(rng, n, dq, mx, my, filling[b], cx=cx, sx=sx)
     target_F = math.exp(rng.uniform(math.log(0.1), math.log(1.5)))
     # grid shifts as --PhaseSpaceShiftX/Y (in cells; main.cpp: qcenter = -shift*pqsize/(n-1)): the zero bins of the two
     # axes differ in 40 % of the cases (the RF force is centred on the zero bin of the POSITION axis)
@@ -122,7 +173,8 @@ def gen_case(rng, cid, ztype):
         shx, shy = rng.choice([-1.5, 1.0, 2.0]), rng.choice([-1.0, 0.5, 3.0])
     elif c < 0.50:
         shx = shy = rng.choice([-1.0, 1.0, 2.0])
-    return StepCase(cid, shx=shx, shy=shy, n=n, it=it, nmax=nmax, z=z, Ib=1e-3, E0=E0, sE=sE, dt=dt, f_rev=f_rev, f_RF=f_RF, bl=bl,
+    return StepCase(cid, shx=shx, shy=shy, n=n, nb=nb, buckets=buckets, spacing=spacing, filling=filling, it=it, nmax=nmax,
+                    z=z, Ib=1e-3, E0=E0, sE=sE, dt=dt, f_rev=f_rev, f_RF=f_RF, bl=bl,
                     pqsize=pqsize, angle=angle, steps=steps, e1=e1, deriv=deriv, target_F=target_F, data=data)
 
 
@@ -131,8 +183,10 @@ def gen_cases(ctx, count):
     cs = []
     for i in range(count):
         zt = kinds[i % 3]
-        cs.append(gen_case(ctx.rng, "s%d" % i, zt))
+        multi = (i % 5) in (1, 3)            # 40 % of the cases hold 2 or 3 bunches
+        cs.append(gen_case(ctx.rng, "s%d" % i, zt, multi=multi))
         ctx.count("step:%s:it%d" % (zt, cs[-1].it))
+        ctx.count("step:nb%d" % cs[-1].nb)
     return cs
 
 
@@ -174,8 +228,8 @@ def run_model(ctx, cases, impl):
         t = Fraction(fl(r["tan"][0][0]))
         xc = Fraction(fl(r["axes"][0][4]))
         dro = [Fraction(fl(x)) for x in r["droff"][0]]
-        text.append("step %s %d %d %s %s %s %s %s\n" % (
-            c.cid, c.n, c.it, " ".join(qtok(v) for v in wp), qtok(t), qtok(xc),
+        text.append("step %s %d %d %d %s %s %s %s %s\n" % (
+            c.cid, c.n, c.nb, c.it, " ".join(qtok(v) for v in wp), qtok(t), qtok(xc),
             " ".join(qtok(v) for v in dro), " ".join(qtok(Fraction(v)) for v in c.data)))
         sz, dE1 = Fraction(fl(r["axes"][0][2])), Fraction(fl(r["axes"][0][1]))
         text.append("scaling %s_sc %s\n" % (c.cid, " ".join(qtok(Fraction(v)) for v in (
@@ -189,7 +243,7 @@ def run_model(ctx, cases, impl):
 def model_order(ctx):
     """the generated step order as the extracted model reports it (tokens W R D F)"""
     n = 4
-    text = "step probe %d 2 %s 0 0 %s %s\n" % (n, " ".join(["0"] * n), " ".join(["0"] * n), " ".join(["0"] * (n * n)))
+    text = "step probe %d 1 2 %s 0 0 %s %s\n" % (n, " ".join(["0"] * n), " ".join(["0"] * n), " ".join(["0"] * (n * n)))
     rc, out, err = run_driver(vp_coq.model_path("haiss"), text, timeout=120)
     if rc != 0:
         raise RuntimeError("model_haiss failed: " + err[-500:])
@@ -198,12 +252,25 @@ def model_order(ctx):
 
 # ------------------------------------------------------------------------------------ reference
 
-def wake_reference(c, r):
-    """double-precision evaluation of scaling * c2r(Z * r2c(padded profile)) with FFTW's c2r
-    semantics on a half spectrum; Z and the padded profile are read from the implementation,
-    the scaling factor is computed from the physical parameters (formula of C05.2)."""
+def padded_train(c, r):
+    """the zero-padded train of the bunch profiles, built here from the per-bunch projections the implementation
+    reports: profile b at cells bucket_b*spacing .. +n of a vector of nmax zeros (bucket placement: C06's theorem)"""
     N, n = c.nmax, c.n
-    pad = [fl(t) for t in r["padded"][0]]
+    proj = [fl(t) for t in r["proj"][0]]
+    pad = [0.0] * N
+    for b, bk in enumerate(c.buckets):
+        for x in range(n):
+            pad[bk * c.spacing + x] = proj[b * n + x]
+    return pad
+
+
+def wake_reference(c, r):
+    """double-precision evaluation of scaling * c2r(Z * r2c(padded train)) with FFTW's c2r semantics on a half
+    spectrum, read back at cells bucket_b*spacing + x for every bunch b; the padded train is built here from the
+    per-bunch projections (not taken from the implementation's buffer), Z is read from the implementation, the
+    scaling factor is computed from the physical parameters (formula of C05.2).  Returns (W[nb*n], cond, scaling)."""
+    N, n = c.nmax, c.n
+    pad = padded_train(c, r)
     zt = r["imp"][0]
     Z = [complex(fl(zt[2 * k]), fl(zt[2 * k + 1])) for k in range(N // 2 + 1)]
     delta_E = c.pqsize / (n - 1)
@@ -215,11 +282,15 @@ def wake_reference(c, r):
         L.append(Z[k] * F)
     nyq = complex(fl(r["nyq"][0][0]), fl(r["nyq"][0][1]))
     W, cond = [], scaling * (abs(L[0]) + 2 * sum(abs(v) for v in L[1:]) + abs(nyq))
-    for j in range(n):
-        y = L[0].real + 2 * sum((L[k] * cmath.exp(2j * math.pi * j * k / N)).real for k in range(1, N // 2))
-        if N % 2 == 0:
-            y += nyq.real * (-1) ** j
-        W.append(scaling * y)
+    for bk in c.buckets:
+        for x in range(n):
+            j = bk * c.spacing + x
+            y = L[0].real + 2 * sum((L[k] * cmath.exp(2j * math.pi * j * k / N)).real for k in range(1, N // 2))
+            if N % 2 == 0:
+                y += nyq.real * (-1) ** j
+            else:       # odd N: cell floor(N/2) is an ordinary frequency the code leaves unwritten (zero on a fresh object)
+                y += 2 * (nyq * cmath.exp(2j * math.pi * j * (N // 2) / N)).real
+            W.append(scaling * y)
     return W, cond, scaling
 
 
@@ -238,8 +309,8 @@ def row_fits(n, it, o, a, b):
     return ok, a - hi, b - lo
 
 
-def row_moments(grid, n, x):
-    row = grid[x * n:(x + 1) * n]
+def row_moments(grid, n, x, b=0):
+    row = grid[(b * n + x) * n:(b * n + x + 1) * n]
     m0 = sum(row)
     m1 = sum(y * v for y, v in enumerate(row))
     ab = sum(abs(v) for v in row)
